@@ -50,6 +50,10 @@ let run (c : s list) : s option =
   | A "clause_valuations_clone" :: pv :: nv :: k :: _ ->
     Some (e_outcome (fun l -> e_pair e_vals e_vals (iter_split (d_n k) l)) (clause_iter (d_pv pv) (d_n nv)))
   | A "owned_back" :: x :: k :: _ -> Some (e_pair e_bdd e_bdd (owned_back (d_bdd x) (d_n k)))
-  | A "to_opt_dnf" :: _ -> Some (A "-")   (* not modelled: validated by the rebuild step that follows *)
+  (* to_optimized_dnf: the step-faithful model of Model/OptDnf.v (the greedy recursion over the operator models);
+     Proofs/OptDnfSem.v proves that on a canonical operand it neither panics nor runs out of fuel and that rebuilding its
+     list returns the operand.  The property itself only demands that rebuilding the IMPLEMENTATION's list returns b (the
+     rebuild step that follows); the two lists are compared by the judge as additional evidence. *)
+  | A "to_opt_dnf" :: x :: _ -> Some (e_outcome e_pvs (to_optimized_dnf (d_bdd x)))
   | A "eq" :: x :: y :: _ -> Some (e_bool (d_bdd x = d_bdd y))
   | _ -> None
